@@ -1,6 +1,8 @@
 (* C13 - Output encoding is transparent: rounding, saturation and masks only. *)
 From Coq Require Import ZArith QArith Qabs List Bool.
 From HV Require Import Enc.Dtype Enc.DtypeProofs.
+From HVgen Require Import Blocks.
+From HV Require Import Tie.BlockTie.
 Import ListNotations.
 Open Scope Z_scope.
 
@@ -47,3 +49,9 @@ Example C13_examples :
   map (fun q => convert_int U8 (PFin q)) [(5 # 2); (7 # 2); (-3 # 2); 300; (-1 # 4); (2549 # 10)]%Q = [2; 4; 0; 255; 0; 255]
   /\ convert_int I16 (PFin (-65537 # 2)) = -32768.
 Proof. vm_compute. split; reflexivity. Qed.
+
+(* ---- tie to the source: _convert_array_dtype in the current raster_array.py has the structure Enc.Dtype models (np.round when a float is
+        cast to an integer type, np.clip to the target range when it is narrower, unsafe cast, invalid pixels := nodata - in that order) *)
+Theorem C13_source_convert_structure : gen_convert_dtype_ok = true.
+Proof. exact tie_convert_dtype. Qed.
+Print Assumptions C13_source_convert_structure.
